@@ -94,6 +94,11 @@ def cases_for_invariants(tier):
         "insert into ta select k from ta; insert into out_t select k from ta",
         "insert into ta select k from tb; insert into tb select k from tc; insert into tc select k from ta",
         "create table m1 as select s.a from s; insert into m2 select a from m1; insert into m1 select a from m2; insert into fin select a from m2; insert into fin2 select a from m1",
+        # a cycle without upstream of its own whose component also holds an ordinary source / a second cycle joining downstream
+        "insert into ta select k from tb; insert into tb select k from ta; insert into rpt select k from ta; insert into rpt select k from ref_t",
+        "insert into ta select k from tb; insert into tb select k from ta; insert into tc select k from td; insert into td select k from tc; insert into rpt select ta.k, tc.k as k2 from ta join tc on ta.k = tc.k",
+        "insert into ta select k from tb; insert into tb select k from ta; insert into rpt select k from ta; insert into rpt2 select r.k, x.v from rpt r join ref_t x on r.k = x.k; insert into ref_t select k, v from stage_t",
+        "insert into ta select k from ta; insert into tb select k from tb; insert into rpt select k from ta union all select k from tb union all select k from ref_t",
     ]
     for sql in cyc:
         for d in ("ansi", "non-validating", "mysql"):
